@@ -162,19 +162,15 @@ def execute(case):
         findings.append(("execution-diverged", "statistics not compared: %s: %s"
                          % diverged[0]))
     cnt["probe:published_values_checked"] = ext.published
-    for k, v in r.faults.items():
-        cnt["fault:" + k] = v
-    if r.det.n_switch:
-        cnt["fault:preempt"] = r.det.n_switch
     for sp in case["stats"]:
         cnt["stat:%s/%s" % (sp["kind"], sp["via"])] = cnt.get("stat:%s/%s" % (sp["kind"], sp["via"]), 0) + 1
     res = {"digest": r.digest(), "clean": r.clean, "counters": cnt,
            "final_case": devscommon.replay_form(case, r),
-           "sums": {"sim_wall_seconds": r.det.clock - r.det.t0,
-                    "yield_points": r.det.step},
+           "sums": {},
            "nontrivial": nontrivial,
            "case_digest": common.digest8([case["program"], case["stats"], case["commands"]]),
            "observed": {"obs_after_warmup": [list(o) for o in (ref.obs if ref else [])][:8]}}
+    devscommon.detsim_stats(res, case, r)
     if findings:
         res["status"] = "violation"
         res["check_id"], res["message"] = findings[0]
